@@ -256,3 +256,107 @@ func writeLogModeRule(c *Ctx, rule string) {
 		c.DominatedByCond(rule, fn, "!t.withoutWriteLog", `^!\*param:t\.withoutWriteLog$`, ev, "without a write log the pending log is not maintained by Insert, so a removal recorded in it would be stale")
 	}
 }
+
+// remoteNodePresentRule (seed C02r5/14; run under C02, C03 and C04): a node fetched from a peer is handed out only if
+// the merged proof really contained it. In derefNodePtr every success return after remoteSync succeeded lies behind
+// `ptr.Node != nil` (remoteSync also succeeds when the cache could not keep the node: `(nil, nil)` then reads as an
+// empty subtree — existing keys read absent and an Insert replaces the whole subtree).
+func remoteNodePresentRule(c *Ctx, rule string) {
+	fn := c.needFn(rule, "storage/mkvs.(*cache).derefNodePtr")
+	if fn == nil {
+		return
+	}
+	rs := CallsTo(fn, "remoteSync", "storage/mkvs.(*cache).remoteSync", "")
+	inst := fname(fn) + ":remoteSync✓⇒ptr.Node != nil before the node is handed out"
+	if rs.Empty() {
+		c.Fail(rule, inst, c.P.Pos(fn.Pos()), "the remote fetch (remoteSync) was not found in derefNodePtr (unresolved anchor)")
+		return
+	}
+	cut := NewCut().AddEdges(HeldEdges(fn, `^\*param:ptr\.Node != nil$`)...)
+	for _, r := range Returns(fn) {
+		cut.AddEdges(phiNonNilEdges(r)...)
+	}
+	var hit ssa.Instruction
+	for _, call := range rs.Calls() {
+		if es, ok := SuccessEdges(call); ok {
+			if h := Reach(fn, nil, es, anyOf(SuccessReturns(fn)), cut); h != nil {
+				hit = h
+			}
+		} else if h := Reach(fn, call, nil, anyOf(SuccessReturns(fn)), cut); h != nil {
+			hit = h
+		}
+	}
+	site := c.P.InstrPos(rs.Ins[0])
+	if hit != nil {
+		site = c.P.InstrPos(hit)
+	}
+	c.Check(hit == nil, rule, inst, site, "every success return after a successful remote fetch passes the test that the node arrived", "derefNodePtr can return success after a remote fetch without testing that the node is there: when the merged proof did not contain it (or the cache could not keep it) the caller sees an empty subtree, not an error")
+}
+
+// c04Round5 (seeds C04r5/13..15).
+func c04Round5(c *Ctx) {
+	// (13) the write log reported for a verified proof carries the leaves' keys and values as they are: an entry with
+	// a nil value means "removed", so a copy idiom that turns an empty value into nil makes a present key read absent
+	if fn := c.needFn("C04.writelog", "storage/mkvs/syncer.(*verifyResult).addLeafToWriteLog"); fn != nil {
+		n, bad := 0, ""
+		for _, b := range blocksIP(fn) {
+			for _, in := range b.Instrs {
+				st, ok := in.(*ssa.Store)
+				if !ok {
+					continue
+				}
+				fa, ok := st.Addr.(*ssa.FieldAddr)
+				if !ok || !strings.HasPrefix(fieldKey(fa.X.Type(), fa.Field), "storage/mkvs/writelog.LogEntry.") {
+					continue
+				}
+				n++
+				f := fieldName(fa.X.Type(), fa.Field)
+				s := vstr(st.Val)
+				if !strings.HasSuffix(s, "node.LeafNode)#0."+f) || strings.Contains(s, "append(") {
+					bad = f + " = " + vstrShort(st.Val)
+				}
+			}
+		}
+		c.Check(n == 2 && bad == "", "C04.writelog", fname(fn)+":entries carry the leaf's key and value as they are", c.P.Pos(fn.Pos()), "LogEntry.Key/Value are the leaf's Key/Value", "the write log entry of a verified leaf is not the leaf's own key/value ("+bad+"): a transformed copy (append to nil, trimming) turns an empty value into nil, which readers of a write log take for 'absent'")
+	}
+	// (14) iteration and prefix proofs are anchored at the root: the iterator may leave the subtree of the caller's
+	// position, and a proof builder anchored below the root drops everything outside it
+	for _, name := range []string{"storage/mkvs.(*tree).SyncIterate", "storage/mkvs.(*tree).SyncGetPrefixes"} {
+		fn := c.needFn("C04.verify", name)
+		if fn == nil {
+			continue
+		}
+		calls := findCalls(fn, "storage/mkvs/syncer.NewProofBuilderForVersion", "storage/mkvs/syncer.NewProofBuilder", "storage/mkvs/syncer.NewProofBuilderV0")
+		ok := len(calls) > 0
+		got := ""
+		for _, call := range calls {
+			a := allArgs(call)
+			if len(a) < 2 || vstr(a[0]) != vstr(a[1]) || !strings.HasSuffix(vstr(a[0]), "param:request.Tree.Root.Hash") {
+				ok = false
+				if len(a) >= 2 {
+					got = vstrShort(a[0]) + ", " + vstrShort(a[1])
+				}
+			}
+		}
+		c.Check(ok, "C04.verify", fname(fn)+":proof anchored at the requested root", c.P.Pos(fn.Pos()), "the proof builder's subtree root is the request's root", "the proof for an iteration / prefix fetch is not anchored at the root of the tree ("+got+"): keys the iterator visits outside the anchor's subtree are not determined by the proof, although it verifies")
+	}
+	// (15) merging a verified subtree descends into both children unconditionally (the callee handles absent and
+	// hash-only children itself); a caller-side nil test on the *destination's* or the subtree's child skips the
+	// nil checks the callee makes and was shown to dereference a nil child of a later proof
+	if fn := c.needFn("C04.merge", "storage/mkvs/syncer.(*SubtreeMerger).MergeVerifiedSubtree"); fn != nil {
+		n, bad := 0, ""
+		for _, call := range findCalls(fn, "storage/mkvs/syncer.(*SubtreeMerger).MergeVerifiedSubtree") {
+			n++
+			for _, h := range heldCondVals(call) {
+				s := normCond(h.Cond, h.Pol)
+				if strings.Contains(s, "MergeVerifiedSubtree(") {
+					continue // the error test of the first child's merge
+				}
+				if strings.Contains(s, ".Left") || strings.Contains(s, ".Right") {
+					bad = s
+				}
+			}
+		}
+		c.Check(n == 2 && bad == "", "C04.merge", fname(fn)+":both children merged unconditionally", c.P.Pos(fn.Pos()), "the two recursive merges are not guarded by a test of the children", "a child merge is skipped under a caller-side test of a child pointer ("+bad+"; recursive merges="+itoa(n)+"): the nil / hash-only handling is the callee's, and skipping it lets a later proof with an absent child be dereferenced")
+	}
+}
